@@ -64,7 +64,7 @@ def spec : List Entry := [
   -- spin locks (myth_spin_trylock_body: 1 = acquired, 0 = held)
   fwd "pthread_spin_init" 2 "myth_spin_init_body" [.param 0],
   fwd "pthread_spin_destroy" 1 "myth_spin_destroy_body" [.param 0],
-  fwd "pthread_spin_lock" 1 "myth_spin_lock_body" [.param 0],
+  fwd "pthread_spin_lock" 1 "myth_spin_lock_body" [.param 0] [] .zero,   -- the body returns its retry count
   fwd "pthread_spin_trylock" 1 "myth_spin_trylock_body" [.param 0] [] (.nonzeroToZeroElse "EBUSY"),
   fwd "pthread_spin_unlock" 1 "myth_spin_unlock_body" [.param 0],
   -- once
